@@ -20,7 +20,7 @@ from . import common, workloads, filelib, battery, readers
 
 PID = 'C17'
 
-LOCAL_KINDS = ['exception', 'short', 'empty']
+LOCAL_KINDS = ['exception', 'exception_seek', 'short', 'empty']
 REMOTE_KINDS = ['exception', 'exception_readall', 'short', 'empty']
 OPENERS_LOCAL = ['path', 'handle', 'ccs1', 'emulator', 'preload']
 OPENERS_REMOTE = ['blob', 'blob', 'emulator_blob', 'blob_preload']
@@ -40,7 +40,7 @@ ASSUMPTIONS = [
 # one execution: open, warm-ups, [arm] target [disarm], follow-ups
 # --------------------------------------------------------------------------------------------
 
-def execute(data, opener, warm, target, follow, plan, chooser, step_cap=200000):
+def execute(data, opener, warm, target, follow, plan, chooser, step_cap=200000, preempt=None):
     """Returns dict(outcomes: {'open','target','follow':[..]}, n_requests, fired, sched)."""
     fs = storage.SimFS()
     fs.add_file(readers.FPATH, data)
@@ -62,6 +62,24 @@ def execute(data, opener, warm, target, follow, plan, chooser, step_cap=200000):
             res['open'] = ('exc', type(e).__name__)
             fs.faults.disarm()
             res['n'] = fs.faults.k
+            if target[0] != 'open' or readers.OPENERS[opener].get('via', 'path') == 'path':
+                return
+            # the caller still holds the handle / blob client the failed open was given: a second,
+            # fault-free open on that same object must behave like an open on a fresh one
+            try:
+                obj = readers.open_obj(fs, opener, target=fs.last_target)
+            except core.SimAbort:
+                raise
+            except core.HarnessError:
+                raise
+            except Exception as e2:
+                res['follow'] = [('exc', type(e2).__name__)] * len(follow)
+                return
+            try:
+                for c in follow:
+                    res['follow'].append(battery.outcome(lambda: battery.apply_call(obj, c)))
+            finally:
+                readers.close_obj(obj)
             return
         try:
             if target[0] == 'open':
@@ -82,8 +100,9 @@ def execute(data, opener, warm, target, follow, plan, chooser, step_cap=200000):
                 res['follow'].append(battery.outcome(lambda: battery.apply_call(obj, c)))
         finally:
             readers.close_obj(obj)
-    r = env.run_sim(fn, fs, chooser, step_cap=step_cap, cpu_count=4)
+    r = env.run_sim(fn, fs, chooser, step_cap=step_cap, cpu_count=4, preempt=tuple(preempt) if preempt else None)
     res['status'] = r.status
+    res['preempt'] = list(preempt) if preempt else None
     res['fired'] = list(fs.faults.fired)
     res['sched'] = r.sched
     readers.clear_caches()
@@ -97,7 +116,7 @@ def judge(res, truth, kind, target, follow, faulted):
     if res['status'] == 'raised':
         return None, ''      # the harness function itself does not raise; defensive
     if target[0] == 'open':
-        if res['open'][0] == 'exc':
+        if res['open'][0] == 'exc' and not res['follow']:
             return None, ''
     else:
         if res['open'][0] == 'exc':
@@ -137,7 +156,7 @@ def short_len(rng, want):
 def fault_arg(rng, kind, want):
     """Length of a short answer, or which exception class an 'exception' fault raises."""
     if kind.startswith('exception'):
-        return rng.randrange(5)
+        return rng.randrange(8)
     return short_len(rng, want)
 
 
@@ -159,15 +178,16 @@ def gen_item(ctx, run):
     else:
         target = battery.gen_call(wl, m, kind) if wl.random() < 0.7 else wl.choice(battery.fixed_battery(m, kind))
     warm = [battery.gen_call(wl, m, kind) for _ in range(wl.choice([0, 0, 1, 2, 3]))] if target[0] != 'open' else []
-    follow = ([] if target[0] == 'open' else [target]) + [battery.gen_call(wl, m, kind)
-                                                         for _ in range(wl.choice([1, 1, 2]))]
+    follow = ([['text_header'], ['bin_header']] if target[0] == 'open' else [target]) + \
+        [battery.gen_call(wl, m, kind) for _ in range(wl.choice([1, 1, 2]))]
     policy = wl.choice(core.POLICIES)
-    return e, opener, kind, target, warm, follow, policy, remote
+    pre_p = wl.choice([0, 0, 0, 0, 0, 0.02])      # one item in six also pre-empts at source-line level
+    return e, opener, kind, target, warm, follow, policy, remote, pre_p
 
 
 def one_item(ctx, run):
     seed = ctx['seed']
-    e, opener, kind, target, warm, follow, policy, remote = gen_item(ctx, run)
+    e, opener, kind, target, warm, follow, policy, remote, pre_p = gen_item(ctx, run)
     m = e['meta']
     data = e['data']
     truth_calls = [c for c in ([target] if target[0] != 'open' else []) + follow]
@@ -184,8 +204,13 @@ def one_item(ctx, run):
         n_exec[0] += 1
         return core.make_chooser(policy, core.stream(seed, run, f'schedule:{n_exec[0]}'), est_steps=200)
 
+    def pre():
+        return [pre_p, f'{seed}:{run}:{n_exec[0]}'] if pre_p else None
+
     # ---- fault-free run: N and clause (c)
-    base = execute(data, opener, warm, target, follow, {}, chooser())
+    base = execute(data, opener, warm, target, follow, {}, chooser(), preempt=pre())
+    if pre_p:
+        rec['probes']['line_level_preemption'] += 1
     N = base['n']
     rec['N'] = N
     rec['simtime'] += base['sched'].clock
@@ -211,7 +236,7 @@ def one_item(ctx, run):
         for extra_policy in ('random', 'ioslow', 'pct2'):
             n_exec[0] += 1
             ch = core.make_chooser(extra_policy, core.stream(seed, run, f'schedule:{n_exec[0]}'), est_steps=200)
-            res = execute(data, opener, warm, target, follow, {}, ch)
+            res = execute(data, opener, warm, target, follow, {}, ch, preempt=pre())
             rec['simtime'] += res['sched'].clock
             rec['probes']['extra_fault_free_completion_orders'] += 1
             where, what = judge(res, truth, kind, target, follow, faulted=False)
@@ -243,7 +268,7 @@ def one_item(ctx, run):
     d0 = 4096 * m['n_header_blocks']
     d1 = d0 + 4096 * m['data_blocks']
     for plan in plans:
-        res = execute(data, opener, warm, target, follow, plan, chooser())
+        res = execute(data, opener, warm, target, follow, plan, chooser(), preempt=pre())
         rec['simtime'] += res['sched'].clock
         if not res['fired']:
             continue
@@ -251,13 +276,8 @@ def one_item(ctx, run):
         for (k, fk, off, ln, th) in res['fired']:
             rec['fault_counts'][fk] += 1
             if fk.startswith('exception'):
-                names = (['OSError(EIO)', 'TimeoutError', 'ConnectionResetError', 'SimIncompleteRead', 'OSError(EIO)']
-                         if remote else ['OSError(EIO)', 'TimeoutError', 'ConnectionResetError', 'InterruptedError',
-                                         'OSError(ESTALE)'])
-                if remote and plan[k][1] % 5 == 0:
-                    rec['fault_counts']['raised:SimTransportError'] += 1
-                else:
-                    rec['fault_counts']['raised:' + names[plan[k][1] % 5]] += 1
+                names = storage.REMOTE_EXC if remote else storage.LOCAL_EXC
+                rec['fault_counts']['raised:' + names[plan[k][1] % len(names)]] += 1
             sec = 'header' if off < d0 else ('data' if off < d1 else 'footer')
             rec['probes']['fault_in_' + sec] += 1
             rec['probes']['fault_on_pool_worker' if th.startswith('w-') else 'fault_on_calling_thread'] += 1
@@ -299,7 +319,8 @@ def _viol(e, opener, kind, target, warm, follow, plan, res, where, what, fk, m):
     remote = readers.OPENERS[opener].get('via') == 'blob'
     return {'signature': signature(m, target, where, fk, remote), 'what': what, 'file': e['name'],
             'spec': e['spec'], 'opener': opener, 'target': target, 'warm': warm, 'follow': follow,
-            'plan': {str(k): list(v) for k, v in plan.items()}, 'trace': list(res['sched'].trace), 'where': where}
+            'plan': {str(k): list(v) for k, v in plan.items()}, 'trace': list(res['sched'].trace), 'where': where,
+            'preempt': res.get('preempt')}
 
 
 # --------------------------------------------------------------------------------------------
@@ -325,7 +346,7 @@ def replay_doc(doc, data):
     target, warm, follow = doc['target'], doc['warm'], doc['follow']
     plan = {int(k): tuple(v) for k, v in doc['plan'].items()}
     truth = readers.truth_table(data, {kind: ([target] if target[0] != 'open' else []) + follow})
-    res = execute(data, opener, warm, target, follow, plan, core.ReplayChooser(doc['trace']))
+    res = execute(data, opener, warm, target, follow, plan, core.ReplayChooser(doc['trace']), preempt=doc.get('preempt'))
     where, what = judge(res, truth, kind, target, follow, faulted=bool(plan))
     if not where:
         return None, ''
